@@ -733,7 +733,7 @@ VARIANTS = [
         "lt08-bound-after-the-subscript", LT08,
         "                or not forward_slice[seg_idx].is_code\n            ):",
         "                or not forward_slice[seg_idx].is_code\n            ) and seg_idx < len(forward_slice):",
-        "R05a", "and seg_idx < len(forward_slice)", "a 'fix' that tests the bound after the subscript was already evaluated",
+        "R05a", "forward_slice[seg_idx].is_code) and", "a 'fix' that tests the bound after the subscript was already evaluated",
     ),
     Variant(
         "lt07-backward-scan-by-index", LT07,
